@@ -548,7 +548,7 @@ class A_ASSOCIATE_RQ(PDU):
         """Set the *Called AE Title* field value"""
         if isinstance(value, bytes):
             # PS3.8 Table 9-11: Leading and trailing spaces are non-significant
-            value = decode_bytes(value).strip()
+            value = decode_bytes(value).strip(" ")
             if not value:
                 raise ValueError(
                     "Invalid 'Called AE Title' value - must not consist "
@@ -578,7 +578,7 @@ class A_ASSOCIATE_RQ(PDU):
         """
         if isinstance(value, bytes):
             # PS3.8 Table 9-11: Leading and trailing spaces are non-significant
-            value = decode_bytes(value).strip()
+            value = decode_bytes(value).strip(" ")
             if not value:
                 raise ValueError(
                     "Invalid 'Calling AE Title' value - must not consist "
@@ -1053,7 +1053,7 @@ class A_ASSOCIATE_AC(PDU):
         if isinstance(value, bytes):
             # The value should not be tested - included that it's decodable
             try:
-                value = decode_bytes(value).strip()
+                value = decode_bytes(value).strip(" ")
             except ValueError:
                 value = ""
 
@@ -1084,7 +1084,7 @@ class A_ASSOCIATE_AC(PDU):
         if isinstance(value, bytes):
             # The value should not be tested - included that it's decodable
             try:
-                value = decode_bytes(value).strip()
+                value = decode_bytes(value).strip(" ")
             except ValueError:
                 value = ""
 
